@@ -20,6 +20,7 @@ Definition dec_gop (v : val) : gop :=
   | 12 => GSeg (as_nat a)
   | 13 => GHlsPoll (as_nat a)
   | 14 => GHlsSeg (as_nat a) (as_int (nthv 2 v))
+  | 15 => GFire
   | _ => GIdle (as_nat a) (as_int (nthv 2 v))        (* 9: idle decision with period *)
   end.
 
